@@ -167,6 +167,44 @@ one_pair (const unsigned char key[8], const unsigned char blk[8], int junk, int 
   gather (back, b64r);
   if (memcmp (back, blk, 8)) viol ("decrypt_r", "%s: decrypt_r(encrypt_r(x)) != x key=%s block=%s", cls, hk, hb);
 
+  /* re-keying with the SAME key after the object was used for something else must key it again: crypt_r wipes
+     the schedule, the caller may clear or overwrite the object */
+  if (interleave || (key[1] & 7) == 0)
+    {
+      spread (k64, key, 0);
+      p_setkey_r (k64, cd_a);
+      switch ((key[2] ^ blk[3]) % 3)
+        {
+        case 0: (void) crypt_r ("a phrase", "$1$saltsalt", cd_a); break;
+        case 1: memset (cd_a, 0, sizeof *cd_a); break;
+        default:
+          {
+            unsigned char k3[8];
+            char k3_64[64];
+            for (int i = 0; i < 8; i++) k3[i] = (unsigned char) (key[i] ^ 0x5A);
+            spread (k3_64, k3, 0);
+            p_setkey_r (k3_64, cd_b);
+            memcpy (cd_a, cd_b, sizeof *cd_a);
+          }
+        }
+      p_setkey_r (k64, cd_a);
+      spread (b64r, blk, 0);
+      p_encrypt_r (b64r, 0, cd_a);
+      gather (got, b64r);
+      n_cmp++;
+      if (memcmp (got, want, 8))
+        viol ("rekey-history", "%s: setkey_r(K); <object reused>; setkey_r(K); encrypt_r differs from DES key=%s block=%s", cls, hk, hb);
+      /* and the static pair across a crypt() call with the key set again afterwards */
+      p_setkey (k64);
+      (void) crypt ("x", "ab");
+      p_setkey (k64);
+      spread (b64, blk, 0);
+      p_encrypt (b64, 0);
+      gather (got, b64);
+      if (memcmp (got, want, 8))
+        viol ("rekey-history", "%s: setkey(K); crypt; setkey(K); encrypt differs from DES key=%s", cls, hk);
+    }
+
   /* any non-zero edflag means decrypt (encrypt(3)): not only 1 */
   {
     static const int flags[] = { 2, -1, 256, -2147483647 - 1, 2147483647, 3 };
